@@ -28,6 +28,7 @@ NAME_MAX = 1 if QUICK else 2      # bounds per tier (stated in the evidence)
 SV_MAX = 2 if QUICK else 3
 CO_MAX = 1 if QUICK else 2
 NQ_MAX = 1 if QUICK else 2
+EMB_DEPTH = 1 if QUICK else 3
 
 
 def in_part(x):
@@ -660,3 +661,79 @@ def klass_reach(cn: str, sc: Optional[str], nprops: int, nmeth: int, tsel: int, 
     del TAGS[:]
     r = _klass(cn, sc, nprops, nmeth, tsel, sval, pname, nq, co, prop, arr)
     return not (r is None and 'rt' in TAGS)
+
+
+# ------------------------------------------------------------------ H3: embedded objects
+def _inner(kind, depth, sval):
+    """Concrete-shaped embedded object nest: depth 0 = plain instance/class; the innermost
+    string value is the symbolic sval only at depth 0 of a scalar (else concrete), because the
+    embedded text is re-parsed by expat (C code) inside parse_embeddedObject."""
+    if kind == 0:
+        props = [CIMProperty('Ip', 'x<&>y', type='string'), CIMProperty('In', Uint8(7))]
+        if depth > 0:
+            props.append(CIMProperty('Emb', _inner(0, depth - 1, sval), type='string', embedded_object='instance'))
+            props.append(CIMProperty('EmbA', [_inner(0, 0, sval), None], type='string', embedded_object='instance',
+                                     is_array=True))
+        return CIMInstance('Inner%d' % depth, properties=props)
+    props = [CIMProperty('Cp', None, type='string', qualifiers=[CIMQualifier('Q', ']]>', type='string')])]
+    return CIMClass('InnerC%d' % depth, properties=props,
+                    methods=[CIMMethod('M', return_type='uint32', parameters=[CIMParameter('p', 'string')])])
+
+
+def _embedded(name: str, kind: int, eo: int, arr: bool, n: int, nullmask: int, null: bool, depth: int,
+              co: Optional[str], aspv: bool):
+    if kf.skip('c01_roundtrip:embedded', name=name, kind=kind, eo=eo, arr=arr, n=n, nullmask=nullmask, null=null, depth=depth, co=co, aspv=aspv):
+        return None
+    eobj = ['instance', 'object'][eo]
+    if kind == 1 and eobj == 'instance':
+        return None                      # a class can only be embedded as 'object'
+    if arr:
+        v = [None if (nullmask >> i) & 1 else _inner(kind, depth if i == 0 else 0, 's') for i in range(n)]
+    else:
+        v = _inner(kind, depth, 's')
+    if null:
+        v = None
+    if aspv:
+        p = CIMParameter(name, 'string', is_array=arr, value=v, embedded_object=eobj)
+        dom = p.tocimxml(as_value=True)
+        facts = dom_facts(dom, {'attr_ws': False, 'text_cr': False})
+        if kf.skip('c01_roundtrip:rt', **facts):
+            return None
+        try:
+            tt = roundtrip(dom)
+        except IllFormed:
+            return None
+        back = TupleParser().parse_any(tt)
+        TAGS.append('rt')
+        if back[0] != name:
+            return 'paramvalue name'
+        return cimcmp.same_value(v, back[2], 'embedded paramvalue')
+    p = CIMProperty(name, v, type='string', is_array=arr, embedded_object=eobj, class_origin=co)
+    return rt(p)
+
+
+def embedded(name: str, kind: int, eo: int, arr: bool, n: int, nullmask: int, null: bool, depth: int,
+             co: Optional[str], aspv: bool) -> Optional[str]:
+    """
+    pre: 1 <= len(name) <= NAME_MAX
+    pre: 0 <= kind <= 1 and 0 <= eo <= 1 and 0 <= n <= 3 and 0 <= nullmask < (1 << n) and 0 <= depth <= EMB_DEPTH
+    pre: co is None
+    pre: arr or (n == 0 and nullmask == 0)
+    pre: in_part(n * 2 + kind)
+    post: _ is None
+    """
+    return _embedded(name, kind, eo, arr, n, nullmask, null, depth, co, aspv)
+
+
+def embedded_reach(name: str, kind: int, eo: int, arr: bool, n: int, nullmask: int, null: bool, depth: int,
+                   co: Optional[str], aspv: bool) -> bool:
+    """
+    pre: 1 <= len(name) <= NAME_MAX
+    pre: 0 <= kind <= 1 and 0 <= eo <= 1 and 0 <= n <= 3 and 0 <= nullmask < (1 << n) and 0 <= depth <= EMB_DEPTH
+    pre: co is None
+    pre: arr or (n == 0 and nullmask == 0)
+    post: _
+    """
+    del TAGS[:]
+    r = _embedded(name, kind, eo, arr, n, nullmask, null, depth, co, aspv)
+    return not (r is None and 'rt' in TAGS and arr)
